@@ -16,11 +16,11 @@ from nssvc.sym import A
 LEVEL = "proof"
 
 
-def analyse(ck, mode, optical, radio, staged):
-    m = Model(mode=mode, optical=optical, radio=radio, write_stages=staged)
+def analyse(ck, mode, optical, radio, staged, output_file="OUT.fits"):
+    m = Model(mode=mode, optical=optical, radio=radio, write_stages=staged, output_file=output_file)
     paths = m.run()
     ck.add_functions(m.interp)
-    tag = "compute[%s,opt=%d,rad=%d,staged=%s]" % (mode, optical, radio, "default" if staged is None else "%d" % staged)
+    tag = "compute[%s,opt=%d,rad=%d,staged=%s%s]" % (mode, optical, radio, "default" if staged is None else "%d" % staged, "" if output_file == "OUT.fits" else ",output=%s" % output_file)
     partial = any(p.kind == "unsupported" for p in paths)
     if partial:
         # not every path could be explored (e.g. the writer branches at each checkpoint): the explored ones are still checked -- a
@@ -60,14 +60,14 @@ def analyse(ck, mode, optical, radio, staged):
 
         def in_sync():
             fs = ghost_fs(done)
-            f = fs.get("OUT.fits")
+            f = fs.get(output_file)
             if f is None:
-                return "the output file does not exist"
+                return "the output file %r does not exist%s" % (output_file, "; written instead: %s" % sorted(fs) if fs else "")
             if f[0] != tuple(sorted(cols)) or not set(meta) <= set(f[1]):
                 return "the output file holds columns %s, the table %s" % (list(f[0]), sorted(cols))
             if f[2] != want_kw:
                 return "the output file was written with %s" % (dict(f[2]),)
-            extra = [k for k in fs if k != "OUT.fits"]
+            extra = [k for k in fs if k != output_file]
             if extra:
                 return "other files are left behind: %s" % extra
             return None
@@ -418,6 +418,9 @@ def run(ck):
     for mode, o, r in combos:
         for staged in (True, False) + ((None,) if (o and r) else ()):
             analyse(ck, mode, o, r, staged)
+    # the file that holds the prefix is the one the caller named, whatever the name looks like (no extension, another extension, dots in a directory)
+    for name in ("nuspacesim_run_20260926", "run.v2/checkpoint", "results.dat"):
+        analyse(ck, "Diffuse", True, True, True, output_file=name)
     for mode in ("Diffuse", "Target"):
         analyse_faults(ck, mode)
         analyse_write_faults(ck, mode)
